@@ -79,15 +79,15 @@ func expectedDelete(st *lib.Stmt, pairs []lib.Pair) ([]string, error) {
 		}
 	}
 	if st.Lim != nil {
-		lo, hi := st.Lim.Start, st.Lim.Start+st.Lim.Count
+		// rows s .. s+n-1, computed without adding s and n (either may be
+		// close to the largest integer)
+		lo := st.Lim.Start
 		if lo > len(keys) {
 			lo = len(keys)
 		}
-		if hi > len(keys) {
-			hi = len(keys)
-		}
-		if hi < lo {
-			hi = lo
+		hi := len(keys)
+		if st.Lim.Count < hi-lo {
+			hi = lo + st.Lim.Count
 		}
 		keys = keys[lo:hi]
 	}
